@@ -63,8 +63,12 @@ TCtr == /\ IsEvent("ctr") /\ Keep /\ Ev.tainted = 0
            ELSE Ev.pattern /\ WalkCalls(B(Ev.key), Ev.nonce, 0, Ev.calls, 1, Ev.windows)
 \* C10
 Strip(h) == h
-TDhPub == IsEvent("dhpub") /\ Keep /\ Ev.rc = 0 /\ Ev.out = D!Pub(Ev.priv) /\ Ev.tainted = 0          \* independent of the blinding
-TDhKey == IsEvent("dhkey") /\ Keep /\ Ev.rc = 0 /\ Ev.out = D!Key(Ev.pub, Ev.priv) /\ Ev.tainted = 0
+\* a call fails only when an allocation of the bignum library was refused (inj), and then says so: success always comes with
+\* the specified value, whatever the blinding; no secret reaches the allocator on either path
+TDhPub == /\ IsEvent("dhpub") /\ Keep /\ Ev.tainted = 0
+          /\ IF Ev.rc = 0 THEN Ev.out = D!Pub(Ev.priv) ELSE Ev.inj > 0
+TDhKey == /\ IsEvent("dhkey") /\ Keep /\ Ev.tainted = 0
+          /\ IF Ev.rc = 0 THEN Ev.out = D!Key(Ev.pub, Ev.priv) ELSE Ev.inj > 0
 TDhSane == IsEvent("dhsane") /\ Keep /\ (Ev.rc = 0) = D!Sane(Ev.pub) /\ Ev.rc \in {0, -1}
 \* C11: the OS entropy answers obtained during a read, then the read itself re-run in the model
 TEntropy == /\ IsEvent("entropy") /\ UNCHANGED <<st, inst>>
